@@ -169,7 +169,7 @@ func (m *Dense) UnmarshalBinary(data []byte) error {
 	if size == 0 {
 		return ErrZeroLength
 	}
-	if int(size) < 0 || size > maxLen {
+	if cols > maxLen/int64(sizeFloat64)/rows {
 		return errTooBig
 	}
 	if len(data) != headerSize+int(rows*cols)*sizeFloat64 {
@@ -225,7 +225,7 @@ func (m *Dense) UnmarshalBinaryFrom(r io.Reader) (int, error) {
 	if size == 0 {
 		return n, ErrZeroLength
 	}
-	if int(size) < 0 || size > maxLen {
+	if cols > maxLen/int64(sizeFloat64)/rows {
 		return n, errTooBig
 	}
 
@@ -358,7 +358,7 @@ func (v *VecDense) UnmarshalBinary(data []byte) error {
 	if n < 0 {
 		return errBadSize
 	}
-	if int64(maxLen) < n {
+	if maxLen/int64(sizeFloat64) < n {
 		return errTooBig
 	}
 	if len(data) != headerSize+int(n)*sizeFloat64 {
@@ -407,7 +407,7 @@ func (v *VecDense) UnmarshalBinaryFrom(r io.Reader) (int, error) {
 	if l < 0 {
 		return n, errBadSize
 	}
-	if int64(maxLen) < l {
+	if maxLen/int64(sizeFloat64) < l {
 		return n, errTooBig
 	}
 
